@@ -296,8 +296,19 @@ func genC12(r *Rng) *Plan {
 		p.Steps = append(p.Steps, Step{Op: "login", B: "b2", User: "bob@example.com", Host: host, Target: "/"})
 		for k, m := 0, r.Range(1, 4); k < m; k++ {
 			la, lb := r.Range(40, 2000), r.Range(20, 2000)
-			p.Steps = append(p.Steps, Step{Op: "get", B: "b1", Host: host, Method: "POST", Target: "/open/upload-a", Body: strings.Repeat("A", la), Sub: "slow-upstream-dial", Name: rt.Backend[0],
-				Twin: &Step{Op: "get", B: "b2", Host: host, Method: r.Pick("POST", "PUT"), Target: "/open/upload-b", Body: strings.Repeat("B", lb)}})
+			first := Step{Op: "get", B: "b1", Host: host, Method: "POST", Target: "/open/upload-a", Body: strings.Repeat("A", la), Sub: "slow-upstream-dial", Name: rt.Backend[0],
+				Twin: &Step{Op: "get", B: "b2", Host: host, Method: r.Pick("POST", "PUT", "GET"), Target: "/open/upload-b", Body: strings.Repeat("B", lb)}}
+			if r.Chance(1, 2) {
+				// … or the first one's body is still arriving (the proxy is in the middle of reading it, wherever it
+				// reads it) while the second is signed and forwarded from start to finish
+				first.Sub, first.Name, first.BodyGap = "", "", 100*time.Millisecond
+				if first.Twin.Method == "GET" {
+					first.Twin.Body = ""
+				}
+			} else if first.Twin.Method == "GET" {
+				first.Twin.Method = "PUT"
+			}
+			p.Steps = append(p.Steps, first)
 		}
 	}
 	n := r.Steps(5, 20)
